@@ -13,6 +13,12 @@ theorem expand_other (m : Bytes) (c : UInt8) (r : Bytes) (h1 : c ≠ 38) (h2 : c
   · intro r' h; exact absurd h h2
   · intro c' r' h; exact absurd h h2
 
+theorem expand_bsOther (m : Bytes) (c : UInt8) (r : Bytes) (h1 : c ≠ 38) (h2 : c ≠ 92) :
+    expand m (92 :: c :: r) = 92 :: c :: expand m r := by
+  rw [expand]
+  · intro h; exact absurd h h1
+  · intro h; exact absurd h h2
+
 theorem expand_tokens (m : Bytes) : ∀ (toks : List RTok), (∀ t ∈ toks, t.ok) →
     expand m (toks.flatMap RTok.render) = toks.flatMap (RTok.meaning m) := by
   intro toks
@@ -29,6 +35,66 @@ theorem expand_tokens (m : Bytes) : ∀ (toks : List RTok), (∀ t ∈ toks, t.o
       have hb : b ≠ 38 ∧ b ≠ 92 := h (.text b) (by simp)
       simp only [List.flatMap_cons, RTok.render, RTok.meaning, List.cons_append, List.nil_append]
       rw [expand_other m b _ hb.1 hb.2, iht]
+    | bsOther c =>
+      have hc : c ≠ 38 ∧ c ≠ 92 := h (.bsOther c) (by simp)
+      simp only [List.flatMap_cons, RTok.render, RTok.meaning, List.cons_append, List.nil_append]
+      rw [expand_bsOther m c _ hc.1 hc.2, iht]
+    | bsEnd => exact absurd (h .bsEnd (by simp)) (by simp [RTok.ok])
+
+/-! ### total characterisation of `expand` -/
+
+theorem expand_tokenize (m : Bytes) (r : Bytes) : expand m r = (tokenize r).flatMap (RTok.meaning m) := by
+  fun_induction tokenize r <;> simp_all [expand, RTok.meaning]
+
+theorem tokenize_render (r : Bytes) : (tokenize r).flatMap RTok.render = r := by
+  fun_induction tokenize r <;> simp_all [RTok.render]
+
+theorem ne92_of {c : UInt8} {r : Bytes} (h1 : c = 92 → ¬ r = []) (h2 : ∀ (c' : UInt8) (r' : Bytes), c = 92 → ¬ r = c' :: r') :
+    c ≠ 92 := by
+  intro h
+  cases r with
+  | nil => exact h1 h rfl
+  | cons a b => exact h2 a b h rfl
+
+theorem tokenize_tokens (r : Bytes) : ∀ t ∈ tokenize r, t = .bsEnd ∨ t.ok := by
+  fun_induction tokenize r
+  case case7 =>
+    rename_i c r _ _ _ _ _ _
+    have : c ≠ 92 := by
+      intro h; subst h
+      cases r <;> simp_all
+    simp_all [RTok.ok]
+  all_goals simp_all [RTok.ok]
+
+theorem mem_dropLast_cons {α} (x : α) (xs : List α) (t : α) (h : t ∈ (x :: xs).dropLast) : xs ≠ [] ∧ (t = x ∨ t ∈ xs.dropLast) := by
+  cases xs with
+  | nil => simp at h
+  | cons y ys => simp only [List.dropLast_cons_cons, List.mem_cons] at h; exact ⟨by simp, h⟩
+
+theorem tokenize_init_ok (r : Bytes) : ∀ t ∈ (tokenize r).dropLast, t.ok := by
+  fun_induction tokenize r
+  all_goals (intro t ht)
+  · simp at ht
+  · obtain ⟨_, h | h⟩ := mem_dropLast_cons _ _ _ ht
+    · subst h; simp [RTok.ok]
+    · simp_all
+  · simp at ht
+  · obtain ⟨_, h | h⟩ := mem_dropLast_cons _ _ _ ht
+    · subst h; simp [RTok.ok]
+    · simp_all
+  · obtain ⟨_, h | h⟩ := mem_dropLast_cons _ _ _ ht
+    · subst h; simp [RTok.ok]
+    · simp_all
+  · obtain ⟨_, h | h⟩ := mem_dropLast_cons _ _ _ ht
+    · subst h; simp_all [RTok.ok]
+    · simp_all
+  · rename_i c r _ _ _ _ _ _
+    have : c ≠ 92 := by
+      intro h; subst h
+      cases r <;> simp_all
+    obtain ⟨_, h | h⟩ := mem_dropLast_cons _ _ _ ht
+    · subst h; simp_all [RTok.ok]
+    · simp_all
 
 /-! ### sub / gsub -/
 
